@@ -9,32 +9,120 @@ import (
 	"verifharness/gen"
 )
 
+// Val is a variable value: a string, or (for named loops) a map of values.
+type Val struct {
+	IsMap bool
+	S     string
+	M     map[string]Val // never mutated after construction
+}
+
+func StrVal(s string) Val { return Val{S: s} }
+
 // Env is a persistent association list.
 type Env struct {
 	name string
-	val  string
+	val  Val
 	next *Env
 }
 
-func (e *Env) Bind(name, val string) *Env { return &Env{name, val, e} }
+func (e *Env) BindVal(name string, v Val) *Env { return &Env{name, v, e} }
 
+func (e *Env) Bind(name, val string) *Env { return &Env{name, StrVal(val), e} }
+
+// Get returns the string bound to name (a map-valued name does not count: vore fails such a back-reference).
 func (e *Env) Get(name string) (string, bool) {
 	for p := e; p != nil; p = p.next {
 		if p.name == name {
-			return p.val, true
+			if p.val.IsMap {
+				return "", false
+			}
+			return p.val.S, true
 		}
 	}
 	return "", false
 }
 
+// Map flattens the environment; map values appear as "<map>".
 func (e *Env) Map() map[string]string {
 	m := map[string]string{}
+	for p := e; p != nil; p = p.next {
+		if _, ok := m[p.name]; !ok {
+			if p.val.IsMap {
+				m[p.name] = "<map>"
+			} else {
+				m[p.name] = p.val.S
+			}
+		}
+	}
+	return m
+}
+
+// Tree returns the full (nested) variable map.
+func (e *Env) Tree() map[string]Val {
+	m := map[string]Val{}
 	for p := e; p != nil; p = p.next {
 		if _, ok := m[p.name]; !ok {
 			m[p.name] = p.val
 		}
 	}
 	return m
+}
+
+// Frame is one active *named* loop: bindings made inside it go to the map of its current iteration.
+// Frames are immutable; every change builds a new one.
+type Frame struct {
+	name   string
+	iter   int
+	vars   map[int]map[string]Val // iteration -> name -> value (copied on write)
+	parent *Frame
+}
+
+// Ctx is what a continuation carries: the flat environment and the stack of named-loop frames.
+type Ctx struct {
+	E *Env
+	F *Frame
+}
+
+func (c Ctx) bind(name string, v Val) Ctx {
+	if c.F == nil {
+		return Ctx{c.E.BindVal(name, v), nil}
+	}
+	f := c.F
+	nv := make(map[int]map[string]Val, len(f.vars))
+	for k, m := range f.vars {
+		nv[k] = m
+	}
+	cur := map[string]Val{}
+	for k, x := range f.vars[f.iter] {
+		cur[k] = x
+	}
+	cur[name] = v
+	nv[f.iter] = cur
+	return Ctx{c.E, &Frame{f.name, f.iter, nv, f.parent}}
+}
+
+func (f *Frame) snapshot() Val {
+	m := map[string]Val{}
+	for k, it := range f.vars {
+		im := map[string]Val{}
+		for n, v := range it {
+			im[n] = v
+		}
+		m[itoa(k)] = Val{IsMap: true, M: im}
+	}
+	return Val{IsMap: true, M: m}
+}
+
+func itoa(n int) string {
+	if n == 0 {
+		return "0"
+	}
+	s := ""
+	for n > 0 {
+		s = string(rune('0'+n%10)) + s
+		n /= 10
+	}
+	return s
 }
 
 // Policy selects the answer at the word-anchor positions where the documentation does
@@ -48,7 +136,8 @@ const (
 
 type Span struct {
 	S, E int
-	Vars map[string]string
+	Vars map[string]string // flat view (maps shown as "<map>")
+	Tree map[string]Val    // full nested view
 }
 
 type Matcher struct {
@@ -61,6 +150,7 @@ type Matcher struct {
 	subs    map[string][]gen.Node
 	globals map[string]*gen.Global
 	depth   int
+	lastTree map[string]Val
 }
 
 func New(p *gen.Program, text string, pol Policy, budget int) *Matcher {
@@ -168,7 +258,7 @@ func (m *Matcher) anchor(kind string, p int) bool {
 	return false
 }
 
-type cont func(pos int, e *Env) bool
+type cont func(pos int, e Ctx) bool
 
 func (m *Matcher) tick() bool {
 	m.Steps++
@@ -179,11 +269,11 @@ func (m *Matcher) tick() bool {
 	return true
 }
 
-func (m *Matcher) seq(items []gen.Node, i int, pos int, e *Env, k cont) bool {
+func (m *Matcher) seq(items []gen.Node, i int, pos int, e Ctx, k cont) bool {
 	if i == len(items) {
 		return k(pos, e)
 	}
-	return m.node(items[i], pos, e, func(p int, e2 *Env) bool {
+	return m.node(items[i], pos, e, func(p int, e2 Ctx) bool {
 		return m.seq(items, i+1, p, e2, k)
 	})
 }
@@ -216,7 +306,7 @@ func (m *Matcher) itemMatch(it gen.ListItem, pos int) (int, bool) {
 	return 0, false
 }
 
-func (m *Matcher) node(n gen.Node, pos int, e *Env, k cont) bool {
+func (m *Matcher) node(n gen.Node, pos int, e Ctx, k cont) bool {
 	if m.GaveUp || !m.tick() {
 		return false
 	}
@@ -291,11 +381,11 @@ func (m *Matcher) node(n gen.Node, pos int, e *Env, k cont) bool {
 		}
 		return false
 	case gen.Capture:
-		return m.node(x.Body, pos, e, func(p int, e2 *Env) bool {
-			return k(p, e2.Bind(x.Name, t[pos:p]))
+		return m.node(x.Body, pos, e, func(p int, e2 Ctx) bool {
+			return k(p, e2.bind(x.Name, StrVal(t[pos:p])))
 		})
 	case gen.BackRef:
-		v, ok := e.Get(x.Name)
+		v, ok := e.E.Get(x.Name)
 		if !ok {
 			return false
 		}
@@ -325,14 +415,14 @@ func (m *Matcher) node(n gen.Node, pos int, e *Env, k cont) bool {
 	panic("ref: unknown node")
 }
 
-func (m *Matcher) call(body []gen.Node, pred *gen.Pred, pos int, e *Env, k cont) bool {
+func (m *Matcher) call(body []gen.Node, pred *gen.Pred, pos int, e Ctx, k cont) bool {
 	m.depth++
 	defer func() { m.depth-- }()
 	if m.depth > 2000 {
 		m.GaveUp = true
 		return false
 	}
-	return m.seq(body, 0, pos, e, func(p int, e2 *Env) bool {
+	return m.seq(body, 0, pos, e, func(p int, e2 Ctx) bool {
 		if pred != nil && !pred.Fn(m.Text[pos:p]) {
 			return false
 		}
@@ -340,10 +430,13 @@ func (m *Matcher) call(body []gen.Node, pred *gen.Pred, pos int, e *Env, k cont)
 	})
 }
 
-func (m *Matcher) loop(l gen.Loop, pos int, e *Env, k cont) bool {
+func (m *Matcher) loop(l gen.Loop, pos int, e Ctx, k cont) bool {
+	if l.Name != "" {
+		return m.namedLoop(l, pos, e, k)
+	}
 	// mandatory copies (vore unrolls them: no zero-width guard there)
-	var mand func(i int, p int, e2 *Env) bool
-	mand = func(i int, p int, e2 *Env) bool {
+	var mand func(i int, p int, e2 Ctx) bool
+	mand = func(i int, p int, e2 Ctx) bool {
 		if i == l.Min {
 			if l.Min == l.Max {
 				return k(p, e2)
@@ -354,12 +447,12 @@ func (m *Matcher) loop(l gen.Loop, pos int, e *Env, k cont) bool {
 			}
 			return m.optional(l, rem, 0, p, e2, k)
 		}
-		return m.node(l.Body, p, e2, func(p2 int, e3 *Env) bool { return mand(i+1, p2, e3) })
+		return m.node(l.Body, p, e2, func(p2 int, e3 Ctx) bool { return mand(i+1, p2, e3) })
 	}
 	return mand(0, pos, e)
 }
 
-func (m *Matcher) optional(l gen.Loop, rem int, done int, pos int, e *Env, k cont) bool {
+func (m *Matcher) optional(l gen.Loop, rem int, done int, pos int, e Ctx, k cont) bool {
 	if m.GaveUp || !m.tick() {
 		return false
 	}
@@ -367,7 +460,7 @@ func (m *Matcher) optional(l gen.Loop, rem int, done int, pos int, e *Env, k con
 		if rem >= 0 && done >= rem {
 			return false
 		}
-		return m.node(l.Body, pos, e, func(p2 int, e2 *Env) bool {
+		return m.node(l.Body, pos, e, func(p2 int, e2 Ctx) bool {
 			if p2 == pos {
 				return false // an optional iteration that consumes nothing fails
 			}
@@ -395,15 +488,75 @@ func (m *Matcher) optional(l gen.Loop, rem int, done int, pos int, e *Env, k con
 // MatchAt returns the first complete match of body starting exactly at pos.
 func (m *Matcher) MatchAt(body []gen.Node, pos int) (end int, vars map[string]string, ok bool) {
 	var fe *Env
-	ok = m.seq(body, 0, pos, nil, func(p int, e *Env) bool {
+	ok = m.seq(body, 0, pos, Ctx{}, func(p int, e Ctx) bool {
 		end = p
-		fe = e
+		fe = e.E
 		return true
 	})
 	if ok {
 		vars = fe.Map()
+		m.lastTree = fe.Tree()
 	}
 	return
+}
+
+// namedLoop: a loop with a name is not unrolled by vore. Every arrival at the loop head (first entry
+// and after each iteration) opens a fresh per-iteration variable map; an iteration that consumed
+// nothing fails, also a mandatory one; bindings made in the body go to the current iteration's map of
+// the nearest named loop; on exit the loop's name is bound (in the enclosing scope) to the map of
+// iteration maps collected so far.
+func (m *Matcher) namedLoop(l gen.Loop, pos int, e Ctx, k cont) bool {
+	var arrive func(iter int, p int, c Ctx) bool
+	arrive = func(iter int, p int, c Ctx) bool {
+		if m.GaveUp || !m.tick() {
+			return false
+		}
+		// open iteration `iter`
+		f := c.F
+		nv := make(map[int]map[string]Val, len(f.vars)+1)
+		for kk, mm := range f.vars {
+			nv[kk] = mm
+		}
+		nv[iter] = map[string]Val{}
+		fr := &Frame{f.name, iter, nv, f.parent}
+		inner := Ctx{c.E, fr}
+		body := func() bool {
+			return m.node(l.Body, p, inner, func(p2 int, c2 Ctx) bool {
+				if p2 == p {
+					return false
+				}
+				return arrive(iter+1, p2, c2)
+			})
+		}
+		if iter < l.Min {
+			return body()
+		}
+		if l.Max >= 0 && iter > l.Max {
+			return false
+		}
+		exit := func() bool {
+			return k(p, Ctx{c.E, fr.parent}.bind(l.Name, fr.snapshot()))
+		}
+		canMore := l.Max < 0 || iter < l.Max
+		if l.Lazy {
+			if exit() {
+				return true
+			}
+			if m.GaveUp || !canMore {
+				return false
+			}
+			return body()
+		}
+		if canMore && body() {
+			return true
+		}
+		if m.GaveUp {
+			return false
+		}
+		return exit()
+	}
+	start := Ctx{e.E, &Frame{l.Name, 0, map[int]map[string]Val{}, e.F}}
+	return arrive(0, pos, start)
 }
 
 // Scan is the outer loop the property states: non-empty first matches, resumed at their
@@ -426,7 +579,7 @@ func (m *Matcher) Scan(body []gen.Node) []Span {
 			return out
 		}
 		if ok && end > p {
-			out = append(out, Span{p, end, vars})
+			out = append(out, Span{p, end, vars, m.lastTree})
 			p = end
 		} else {
 			p++
